@@ -179,60 +179,73 @@ Example C02_guard_example_text :      (* Union[int, str] given the text 'null': 
   in_guard yl0 (TUnion [TInt; TStr]) (VStr s_null) = true /\ impl yl0 (TUnion [TInt; TStr]) (VStr s_null) = AOk (VStr s_null).
 Proof. vm_compute. split; reflexivity. Qed.
 
-(* ---- 4. where the pinned tree breaks the property: one witness per recorded defect -------------------------------- *)
-(* the full statements that are FALSE of the pinned tree:
-     forall yl t v0 w, impl yl t v0 = AOk w -> conforms t w = true
-     forall yl t v0, shaped t v0 = true -> is_ok (impl yl t v0) = true
-     forall yl ts ts' v0, Permutation ts ts' -> is_ok (impl yl (TUnion ts) v0) = is_ok (impl yl (TUnion ts') v0) *)
-Theorem C02_union_order_refuted :          (* union-vals-last: Union[str,int] rejects the str 'null', Union[int,str] accepts *)
-  exists yl v0, shaped (TUnion [TStr; TInt]) v0 = true /\ is_ok (impl yl (TUnion [TStr; TInt]) v0) = false
-                /\ is_ok (impl yl (TUnion [TInt; TStr]) v0) = true.
-Proof. exists yl0, (VStr s_null). vm_compute. repeat split. Qed.
-Print Assumptions C02_union_order_refuted.
+(* ---- 4. the one open defect of the pinned tree -------------------------------------------------------------------- *)
+(* the full statement that is still FALSE of the pinned tree:
+     forall yl t v0 w, impl yl t v0 = AOk w -> conforms t w = true *)
+Theorem C02_dict_key_refuted :              (* dict-key-unchecked: Dict[str, int] accepts {1: 2} *)
+  exists yl, impl yl (TDict false TInt) (VDict [(VInt 1, VInt 2)]) = AOk (VDict [(VInt 1, VInt 2)])
+             /\ conforms (TDict false TInt) (VDict [(VInt 1, VInt 2)]) = false
+             /\ in_guard yl (TDict false TInt) (VDict [(VInt 1, VInt 2)]) = false.
+Proof. exists yl0. vm_compute. repeat split. Qed.
+Print Assumptions C02_dict_key_refuted.
 
-Theorem C02_union_exception_value_refuted : (* union-vals-last: an exception instance handed out as the value *)
-  exists yl t v0 w, impl yl t v0 = AOk w /\ conforms t w = false.
+(* ---- 5. regression witnesses: the tree BEFORE the C02 repairs (impl_before = as_is switches + in-place adaptation)
+        violated the property; each of these inputs is now inside the guard of the pinned model and is replayed by every
+        run (tie/props/c02.py witness_cases), so a recurrence is a model disagreement and a spec failure in class 0 ------ *)
+Theorem C02_union_order_regression :        (* ec37b24: Union[str,int] rejected the str 'null', Union[int,str] accepted *)
+  exists yl v0, shaped (TUnion [TStr; TInt]) v0 = true /\ is_ok (impl_before yl (TUnion [TStr; TInt]) v0) = false
+                /\ is_ok (impl_before yl (TUnion [TInt; TStr]) v0) = true
+                /\ in_guard yl (TUnion [TStr; TInt]) v0 = true /\ is_ok (impl yl (TUnion [TStr; TInt]) v0) = true.
+Proof. exists yl0, (VStr s_null). vm_compute. repeat split. Qed.
+Print Assumptions C02_union_order_regression.
+
+Theorem C02_union_exception_value_regression : (* ec37b24: an exception instance was handed out as the value *)
+  exists yl t v0 w, impl_before yl t v0 = AOk w /\ conforms t w = false
+                    /\ in_guard yl t v0 = true /\ (forall w', impl yl t v0 = AOk w' -> conforms t w' = true).
 Proof.
   exists (fun s => if str_eqb s [91;110;44;49;93]%N then LVal (VList [VNone; VStr [49]%N]) else yl0 s),
          (TUnion [TTuple [TUnion [TStr; TInt]; TStr]; TTuple [TAny; TInt]]), (VStr [91;110;44;49;93]%N),
          (VTuple [exc_val; VStr [49]%N]).
-  vm_compute. split; reflexivity.
+  repeat split; try (vm_compute; reflexivity).
+  intros w' H. eapply sound_pinned; [|exact H]. vm_compute. reflexivity.
 Qed.
-Print Assumptions C02_union_exception_value_refuted.
+Print Assumptions C02_union_exception_value_regression.
 
-Theorem C02_literal_refuted :               (* literal-eq: Literal[1, 2] accepts True *)
-  exists yl, impl yl (TLit [LInt 1; LInt 2]) (VBool true) = AOk (VBool true)
-             /\ conforms (TLit [LInt 1; LInt 2]) (VBool true) = false.
-Proof. exists yl0. vm_compute. split; reflexivity. Qed.
-Print Assumptions C02_literal_refuted.
+Theorem C02_literal_regression :            (* d000fe2: Literal[1, 2] accepted True *)
+  exists yl, impl_before yl (TLit [LInt 1; LInt 2]) (VBool true) = AOk (VBool true)
+             /\ conforms (TLit [LInt 1; LInt 2]) (VBool true) = false
+             /\ in_guard yl (TLit [LInt 1; LInt 2]) (VBool true) = true
+             /\ is_ok (impl yl (TLit [LInt 1; LInt 2]) (VBool true)) = false.
+Proof. exists yl0. vm_compute. repeat split. Qed.
+Print Assumptions C02_literal_regression.
 
-Theorem C02_dict_key_refuted :              (* dict-key-unchecked: Dict[str, int] accepts {1: 2} *)
-  exists yl, impl yl (TDict false TInt) (VDict [(VInt 1, VInt 2)]) = AOk (VDict [(VInt 1, VInt 2)])
-             /\ conforms (TDict false TInt) (VDict [(VInt 1, VInt 2)]) = false.
-Proof. exists yl0. vm_compute. split; reflexivity. Qed.
-Print Assumptions C02_dict_key_refuted.
+Theorem C02_any_str_regression :            (* f7876f0: Any rejected the str '0x_' *)
+  exists yl v0, shaped TAny v0 = true /\ is_ok (impl_before yl TAny v0) = false
+                /\ in_guard yl TAny v0 = true /\ is_ok (impl yl TAny v0) = true.
+Proof. exists yl0, (VStr [48;120;95]%N). vm_compute. repeat split. Qed.
+Print Assumptions C02_any_str_regression.
 
-Theorem C02_any_str_refuted :               (* any-str-valueerror: Any rejects the str '0x_' *)
-  exists yl v0, shaped TAny v0 = true /\ is_ok (impl yl TAny v0) = false.
-Proof. exists yl0, (VStr [48;120;95]%N). vm_compute. split; reflexivity. Qed.
-Print Assumptions C02_any_str_refuted.
-
-Theorem C02_union_mutation_refuted :        (* union-trial-mutates: Union[List[int], List[str]] rejects ['1', 'a'] *)
-  exists yl v0, is_ok (impl yl (TUnion [TList TInt; TList TStr]) v0) = false
-                /\ is_ok (impl yl (TUnion [TList TStr; TList TInt]) v0) = true
-                /\ shaped (TUnion [TList TInt; TList TStr]) v0 = true.
+Theorem C02_union_mutation_regression :     (* ce28ec8: Union[List[int], List[str]] rejected ['1', 'a'] *)
+  exists yl v0, is_ok (impl_before yl (TUnion [TList TInt; TList TStr]) v0) = false
+                /\ is_ok (impl_before yl (TUnion [TList TStr; TList TInt]) v0) = true
+                /\ shaped (TUnion [TList TInt; TList TStr]) v0 = true
+                /\ in_guard yl (TUnion [TList TInt; TList TStr]) v0 = true
+                /\ is_ok (impl yl (TUnion [TList TInt; TList TStr]) v0) = true.
 Proof. exists yl0, (VList [VStr [49]%N; VStr [97]%N]). vm_compute. repeat split. Qed.
-Print Assumptions C02_union_mutation_refuted.
+Print Assumptions C02_union_mutation_regression.
 
-Theorem C02_optional_enum_order_refuted :   (* optional-enum-order: Union[None, E] cannot even be declared *)
-  decl_crash (TUnion [TNone; TEnum [69]%N [[65]%N]]) = true /\ decl_crash (TUnion [TEnum [69]%N [[65]%N]; TNone]) = false.
-Proof. vm_compute. split; reflexivity. Qed.
-Print Assumptions C02_optional_enum_order_refuted.
+Theorem C02_optional_enum_order_regression : (* c374a1a: Union[None, E] could not even be declared *)
+  decl_crash_g false (TUnion [TNone; TEnum [69]%N [[65]%N]]) = true
+  /\ decl_crash_g false (TUnion [TEnum [69]%N [[65]%N]; TNone]) = false
+  /\ decl_crash (TUnion [TNone; TEnum [69]%N [[65]%N]]) = false.
+Proof. vm_compute. repeat split. Qed.
+Print Assumptions C02_optional_enum_order_regression.
 
-Theorem C02_group_scalar_refuted :          (* group-key-scalar: parse_object({'g': 5}) with keys g.a: int *)
-  exists yl, group_parse yl [([97]%N, TInt)] (VInt 5) = AOk (VInt 5) /\ group_conforms [([97]%N, TInt)] (VInt 5) = false.
-Proof. exists yl0. vm_compute. split; reflexivity. Qed.
-Print Assumptions C02_group_scalar_refuted.
+Theorem C02_group_scalar_regression :       (* 895597a: parse_object({'g': 5}) with keys g.a: int was accepted *)
+  exists yl, group_parse_g false yl [([97]%N, TInt)] (VInt 5) = AOk (VInt 5) /\ group_conforms [([97]%N, TInt)] (VInt 5) = false
+             /\ is_ok (group_parse yl [([97]%N, TInt)] (VInt 5)) = false.
+Proof. exists yl0. vm_compute. repeat split. Qed.
+Print Assumptions C02_group_scalar_regression.
 
 (* the hypotheses of the parse-level statements are satisfiable together: a list of tuples, one of them given as a list *)
 Example C02_parse_level_example :
